@@ -593,6 +593,237 @@ Proof.
     (mapM_ok_map _ _ conv_cc_spec _ _ Ec), G1, G2, G3, G4, G5. reflexivity.
 Qed.
 
+(** * [exn_possible]: the order-independent set of exception classes.  Whatever [convert]
+    (either variant) raises is in the set, and if the set is empty the conversion succeeds. *)
+Lemma mapM_err {A B} (f : A -> result B) : forall l e,
+  mapM f l = Err e -> exists a, In a l /\ f a = Err e.
+Proof.
+  induction l as [|x l IH]; cbn [mapM]; intros e H; [discriminate|].
+  destruct (f x) as [y|e'] eqn:Ex; cbn [bind] in H.
+  - destruct (mapM f l) as [ys|e''] eqn:El; cbn [bind] in H; [discriminate|].
+    inversion H; subst. destruct (IH e eq_refl) as [a [Hin Ha]]. exists a. split; [right; assumption | assumption].
+  - inversion H; subst. exists x. split; [left; reflexivity | assumption].
+Qed.
+
+Lemma set_int32_err z e : set_int32 z = Err e -> e = ValueError /\ int32_ok z = false.
+Proof. unfold set_int32. destruct (int32_ok z); intros H; inversion H. split; reflexivity. Qed.
+
+Lemma nonempty_in {A} (a : A) l : In a l -> nonempty l = true.
+Proof. destruct l; [intros [] | reflexivity]. Qed.
+
+Lemma gather_err : forall l idx tot e,
+  gather idx l tot = Err e ->
+  (e = UnicodeEncodeError /\ existsb (fun i => existsb surrogate (pi_name i)) l = true) \/
+  (e = ValueError /\ insts_value_err idx l = true).
+Proof.
+  induction l as [|i l IH]; intros idx tot e H; cbn [gather] in H; [discriminate|].
+  cbn [existsb insts_value_err].
+  destruct (conv_info idx i) as [inf|e'] eqn:Ei; cbn [bind] in H.
+  - destruct (gather (idx + 1) l (fold_left upd_total (pi_notes i) tot)) as [g|e''] eqn:Eg; cbn [bind] in H; [discriminate|].
+    inversion H; subst. destruct (IH _ _ _ Eg) as [[He Hs]|[He Hs]]; [left | right]; split; try assumption;
+      rewrite Hs; apply orb_true_r.
+  - inversion H; subst. unfold conv_info in Ei. destruct (pi_name i) as [|c0 nm] eqn:En; [discriminate|].
+    unfold set_string in Ei. destruct (existsb surrogate (c0 :: nm)) eqn:Es; cbn [bind] in Ei.
+    + inversion Ei; subst. left. split; [reflexivity|]. reflexivity.
+    + destruct (set_int32 idx) as [y|e2] eqn:E2; cbn [bind] in Ei; [discriminate|].
+      inversion Ei; subst. apply set_int32_err in E2. destruct E2 as [-> Hidx]. right. split; [reflexivity|].
+      unfold inst_value_err. rewrite En, Hidx. reflexivity.
+Qed.
+
+Lemma spec_tagged_value_err {A} (sel : pinst -> list A) (bad : A -> bool) :
+  (forall idx i, (nonempty (sel i) && (negb (int32_ok idx) || negb (int32_ok (pi_program i)))) || existsb bad (sel i) = true ->
+                 inst_value_err idx i = true) ->
+  forall l idx t, In t (spec_tagged sel idx l) ->
+    negb (int32_ok (tg_instr t)) || negb (int32_ok (tg_prog t)) || bad (tg_ev t) = true ->
+    insts_value_err idx l = true.
+Proof.
+  intros Hsel. induction l as [|i l IH]; intros idx t Hin Hbad; cbn [spec_tagged insts_value_err] in *; [destruct Hin|].
+  apply in_app_or in Hin. destruct Hin as [Hin|Hin].
+  - apply orb_true_iff. left. apply Hsel. unfold tag_all in Hin. apply in_map_iff in Hin.
+    destruct Hin as [a [Ht Ha]]. subst t. cbn in Hbad.
+    rewrite (nonempty_in _ _ Ha). cbn [andb].
+    destruct (negb (int32_ok idx) || negb (int32_ok (pi_program i))) eqn:E; [reflexivity|].
+    cbn [orb] in *. apply existsb_exists. exists a. split; assumption.
+  - apply orb_true_iff. right. eapply IH; eassumption.
+Qed.
+
+Lemma inst_err_notes idx i :
+  (nonempty (pi_notes i) && (negb (int32_ok idx) || negb (int32_ok (pi_program i)))) ||
+  existsb (fun n => negb (int32_ok (pn_pitch n)) || negb (int32_ok (pn_vel n))) (pi_notes i) = true ->
+  inst_value_err idx i = true.
+Proof.
+  unfold inst_value_err. intros H.
+  destruct (existsb (fun n => negb (int32_ok (pn_pitch n)) || negb (int32_ok (pn_vel n))) (pi_notes i));
+    [rewrite !orb_true_r; reflexivity|].
+  rewrite orb_false_r in H. apply andb_prop in H. destruct H as [H1 H2]. rewrite H1, H2. cbn.
+  rewrite !orb_true_r. reflexivity.
+Qed.
+Lemma inst_err_bends idx i :
+  (nonempty (pi_bends i) && (negb (int32_ok idx) || negb (int32_ok (pi_program i)))) ||
+  existsb (fun b => negb (int32_ok (pbd_pitch b))) (pi_bends i) = true ->
+  inst_value_err idx i = true.
+Proof.
+  unfold inst_value_err. intros H.
+  destruct (existsb (fun b => negb (int32_ok (pbd_pitch b))) (pi_bends i)); [rewrite !orb_true_r; reflexivity|].
+  rewrite orb_false_r in H. apply andb_prop in H. destruct H as [H1 H2]. rewrite H1, H2. cbn.
+  rewrite !orb_true_r. reflexivity.
+Qed.
+Lemma inst_err_ccs idx i :
+  (nonempty (pi_ccs i) && (negb (int32_ok idx) || negb (int32_ok (pi_program i)))) ||
+  existsb (fun c => negb (int32_ok (pc_number c)) || negb (int32_ok (pc_value c))) (pi_ccs i) = true ->
+  inst_value_err idx i = true.
+Proof.
+  unfold inst_value_err. intros H.
+  destruct (existsb (fun c => negb (int32_ok (pc_number c)) || negb (int32_ok (pc_value c))) (pi_ccs i)); [rewrite !orb_true_r; reflexivity|].
+  rewrite orb_false_r in H. apply andb_prop in H. destruct H as [H1 H2]. rewrite H1, H2. cbn.
+  rewrite !orb_true_r. reflexivity.
+Qed.
+
+Ltac bind_err H :=
+  repeat match type of H with
+  | bind (set_int32 ?z) _ = Err _ =>
+      let y := fresh "y" in let E := fresh "E" in
+      destruct (set_int32 z) as [y|] eqn:E; cbn [bind] in H;
+      [apply set_int32_inv in E; subst y
+      | inversion H; subst; apply set_int32_err in E; destruct E as [_ E]]
+  end.
+
+Lemma conv_note_err t e : conv_note t = Err e ->
+  e = ValueError /\
+  negb (int32_ok (tg_instr t)) || negb (int32_ok (tg_prog t)) ||
+    (negb (int32_ok (pn_pitch (tg_ev t))) || negb (int32_ok (pn_vel (tg_ev t)))) = true.
+Proof.
+  unfold conv_note, set_int32. intros H.
+  destruct (int32_ok (tg_instr t)); cbn in *; [|inversion H; auto].
+  destruct (int32_ok (tg_prog t)); cbn in *; [|inversion H; auto].
+  destruct (int32_ok (pn_pitch (tg_ev t))); cbn in *; [|inversion H; auto].
+  destruct (int32_ok (pn_vel (tg_ev t))); cbn in *; [discriminate|inversion H; auto].
+Qed.
+Lemma conv_bend_err t e : conv_bend t = Err e ->
+  e = ValueError /\
+  negb (int32_ok (tg_instr t)) || negb (int32_ok (tg_prog t)) || negb (int32_ok (pbd_pitch (tg_ev t))) = true.
+Proof.
+  unfold conv_bend, set_int32. intros H.
+  destruct (int32_ok (tg_instr t)); cbn in *; [|inversion H; auto].
+  destruct (int32_ok (tg_prog t)); cbn in *; [|inversion H; auto].
+  destruct (int32_ok (pbd_pitch (tg_ev t))); cbn in *; [discriminate|inversion H; auto].
+Qed.
+Lemma conv_cc_err t e : conv_cc t = Err e ->
+  e = ValueError /\
+  negb (int32_ok (tg_instr t)) || negb (int32_ok (tg_prog t)) ||
+    (negb (int32_ok (pc_number (tg_ev t))) || negb (int32_ok (pc_value (tg_ev t)))) = true.
+Proof.
+  unfold conv_cc, set_int32. intros H.
+  destruct (int32_ok (tg_instr t)); cbn in *; [|inversion H; auto].
+  destruct (int32_ok (tg_prog t)); cbn in *; [|inversion H; auto].
+  destruct (int32_ok (pc_number (tg_ev t))); cbn in *; [|inversion H; auto].
+  destruct (int32_ok (pc_value (tg_ev t))); cbn in *; [discriminate|inversion H; auto].
+Qed.
+
+Theorem convert_err_possible fixed m e : convert_gen fixed m = Err e -> exn_possible m e = true.
+Proof.
+  unfold convert_gen. intros H.
+  destruct (fixed && (pm_res m <=? 0)) eqn:Ef.
+  { inversion H; subst. apply andb_prop in Ef. destruct Ef as [_ Ef]. cbn. unfold can_mce. rewrite Ef. reflexivity. }
+  destruct (set_int32 (pm_res m)) as [tpq|e0] eqn:Er; cbn [bind] in H.
+  2:{ inversion H; subst. apply set_int32_err in Er. destruct Er as [-> Er]. cbn. unfold can_value. rewrite Er. reflexivity. }
+  destruct (mapM conv_tsig (pm_tsigs m)) as [ts|e1] eqn:Ets; cbn [bind] in H.
+  2:{ inversion H; subst. apply mapM_err in Ets. destruct Ets as [t [Hin Ht]].
+      unfold conv_tsig, set_int32 in Ht. destruct (int32_ok (pt_num t)) eqn:En; cbn [bind] in Ht.
+      - destruct (int32_ok (pt_den t)) eqn:Ed; [discriminate|]. inversion Ht; subst. cbn. unfold can_mce.
+        assert (X : existsb (fun t => negb (int32_ok (pt_den t))) (pm_tsigs m) = true)
+          by (apply existsb_exists; exists t; split; [assumption | rewrite Ed; reflexivity]).
+        rewrite X. rewrite orb_true_r. reflexivity.
+      - inversion Ht; subst. cbn. unfold can_value.
+        assert (X : existsb (fun t => negb (int32_ok (pt_num t))) (pm_tsigs m) = true)
+          by (apply existsb_exists; exists t; split; [assumption | rewrite En; reflexivity]).
+        rewrite X. rewrite orb_true_r. reflexivity. }
+  destruct (mapM conv_key (pm_keys m)) as [ks|e2] eqn:Eks; cbn [bind] in H.
+  2:{ inversion H; subst. apply mapM_err in Eks. destruct Eks as [k [Hin Hk]].
+      unfold conv_key in Hk. destruct (pk_number k / 12 =? 0) eqn:E0; [discriminate|].
+      destruct (pk_number k / 12 =? 1) eqn:E1; [discriminate|]. inversion Hk; subst. cbn. unfold can_mce.
+      assert (X : existsb (fun k => negb ((pk_number k / 12 =? 0) || (pk_number k / 12 =? 1))) (pm_keys m) = true)
+        by (apply existsb_exists; exists k; split; [assumption | rewrite E0, E1; reflexivity]).
+      rewrite X. apply orb_true_r. }
+  destruct (gather 0 (pm_insts m) 0) as [g|e3] eqn:Eg; cbn [bind] in H.
+  2:{ inversion H; subst. destruct (gather_err _ _ _ _ Eg) as [[-> Hs]|[-> Hs]]; cbn.
+      - exact Hs.
+      - unfold can_value. rewrite Hs. apply orb_true_r. }
+  destruct (gather_spec _ _ _ _ Eg) as [_ [G2 [G3 G4]]].
+  assert (V : insts_value_err 0 (pm_insts m) = true -> exn_possible m ValueError = true).
+  { intros Hv. cbn. unfold can_value. rewrite Hv. apply orb_true_r. }
+  destruct (mapM conv_note (g_notes g)) as [ns|e4] eqn:En; cbn [bind] in H.
+  2:{ inversion H; subst. apply mapM_err in En. destruct En as [t [Hin Ht]]. apply conv_note_err in Ht.
+      destruct Ht as [-> Hb]. apply V. rewrite G2 in Hin.
+      eapply (spec_tagged_value_err pi_notes (fun n => negb (int32_ok (pn_pitch n)) || negb (int32_ok (pn_vel n))));
+        [apply inst_err_notes | exact Hin | exact Hb]. }
+  destruct (mapM conv_bend (g_bends g)) as [bs|e5] eqn:Eb; cbn [bind] in H.
+  2:{ inversion H; subst. apply mapM_err in Eb. destruct Eb as [t [Hin Ht]]. apply conv_bend_err in Ht.
+      destruct Ht as [-> Hb]. apply V. rewrite G3 in Hin.
+      eapply (spec_tagged_value_err pi_bends (fun b => negb (int32_ok (pbd_pitch b))));
+        [apply inst_err_bends | exact Hin | exact Hb]. }
+  destruct (mapM conv_cc (g_ccs g)) as [cs|e6] eqn:Ec; cbn [bind] in H; [discriminate|].
+  inversion H; subst. apply mapM_err in Ec. destruct Ec as [t [Hin Ht]]. apply conv_cc_err in Ht.
+  destruct Ht as [-> Hb]. apply V. rewrite G4 in Hin.
+  eapply (spec_tagged_value_err pi_ccs (fun c => negb (int32_ok (pc_number c)) || negb (int32_ok (pc_value c))));
+    [apply inst_err_ccs | exact Hin | exact Hb].
+Qed.
+
+Corollary convert_ok_when_nothing_possible fixed m :
+  can_mce m = false -> can_value m = false -> can_unicode m = false -> exists c, convert_gen fixed m = Ok c.
+Proof.
+  intros H1 H2 H3. destruct (convert_gen fixed m) as [c|e] eqn:E; [eexists; reflexivity|].
+  apply convert_err_possible in E. destruct e; cbn in E; congruence.
+Qed.
+
+(** on everything a byte string can parse to ([pm_rangeb]), no foreign class is possible:
+    the set is at most {MIDIConversionError}, so the bytes-side comparison is exact *)
+Lemma insts_no_value_err : forall l idx,
+  0 <= idx -> idx + Z.of_nat (length l) <= INT32_MAX + 1 ->
+  forallb inst_rangeb l = true -> insts_value_err idx l = false.
+Proof.
+  induction l as [|i l IH]; intros idx H0 Hl Hf; cbn [insts_value_err]; [reflexivity|].
+  cbn [forallb length] in *. rewrite Nat2Z.inj_succ in Hl. apply andb_prop in Hf. destruct Hf as [Hi Hf].
+  rewrite IH by (try assumption; lia). rewrite orb_false_r.
+  assert (Hidx : int32_ok idx = true) by (apply int32_ok_spec; unfold INT32_MIN, INT32_MAX in *; lia).
+  unfold inst_rangeb in Hi. b2p. unfold inst_value_err.
+  match goal with H : int32_ok (pi_program i) = true |- _ => rewrite H end. rewrite Hidx. cbn [negb orb].
+  rewrite !andb_false_r. cbn [orb].
+  match goal with H : forallb note_rangeb _ = true |- _ => rename H into Hn end.
+  match goal with H : forallb (fun b => int32_ok (pbd_pitch b)) _ = true |- _ => rename H into Hb end.
+  match goal with H : forallb (fun c => int32_ok (pc_number c) && _) _ = true |- _ => rename H into Hc end.
+  assert (X1 : existsb (fun n => negb (int32_ok (pn_pitch n)) || negb (int32_ok (pn_vel n))) (pi_notes i) = false).
+  { rewrite <- not_true_iff_false. intros Hx. apply existsb_exists in Hx. destruct Hx as [n [Hin Hx]].
+    rewrite forallb_forall in Hn. specialize (Hn n Hin). unfold note_rangeb in Hn. apply andb_prop in Hn.
+    destruct Hn as [Hp Hv]. rewrite (byte7_int32 _ Hp), (byte7_int32 _ Hv) in Hx. discriminate. }
+  assert (X2 : existsb (fun b => negb (int32_ok (pbd_pitch b))) (pi_bends i) = false).
+  { rewrite <- not_true_iff_false. intros Hx. apply existsb_exists in Hx. destruct Hx as [b [Hin Hx]].
+    rewrite forallb_forall in Hb. rewrite (Hb b Hin) in Hx. discriminate. }
+  assert (X3 : existsb (fun c => negb (int32_ok (pc_number c)) || negb (int32_ok (pc_value c))) (pi_ccs i) = false).
+  { rewrite <- not_true_iff_false. intros Hx. apply existsb_exists in Hx. destruct Hx as [c [Hin Hx]].
+    rewrite forallb_forall in Hc. specialize (Hc c Hin). cbn in Hc. apply andb_prop in Hc. destruct Hc as [Hc1 Hc2].
+    rewrite Hc1, Hc2 in Hx. discriminate. }
+  rewrite X1, X2, X3. reflexivity.
+Qed.
+
+Theorem pm_rangeb_no_foreign_possible m :
+  pm_rangeb m = true -> INT32_MIN <= pm_res m -> can_value m = false /\ can_unicode m = false.
+Proof.
+  intros Hr Hlo. unfold pm_rangeb in Hr. b2p.
+  match goal with H : forallb (fun t => int32_ok (pt_num t)) _ = true |- _ => rename H into Hn end.
+  match goal with H : forallb inst_rangeb _ = true |- _ => rename H into Hi end.
+  split.
+  - unfold can_value.
+    assert (R : int32_ok (pm_res m) = true) by (apply int32_ok_spec; lia). rewrite R. cbn [negb orb].
+    assert (X : existsb (fun t => negb (int32_ok (pt_num t))) (pm_tsigs m) = false).
+    { rewrite <- not_true_iff_false. intros Hc. apply existsb_exists in Hc. destruct Hc as [t [Hin Hc]].
+      rewrite forallb_forall in Hn. rewrite (Hn t Hin) in Hc. discriminate. }
+    rewrite X. cbn [orb]. apply insts_no_value_err; try assumption; lia.
+  - unfold can_unicode. rewrite <- not_true_iff_false. intros Hc. apply existsb_exists in Hc.
+    destruct Hc as [i [Hin Hc]]. rewrite forallb_forall in Hi. specialize (Hi i Hin).
+    unfold inst_rangeb in Hi. b2p. congruence.
+Qed.
+
 (** * The boolean well-formedness used by the runner is implied by [c16_wf] *)
 Lemma c16_wf_wfb c : c16_wf c -> c16_wfb c = true.
 Proof.
